@@ -19,18 +19,7 @@ def nuis_spec():
         "parameters": []}
 
 
-def classify(res):
-    """structure of what hypotest returned -> layout codes (1 obs, 2 [CLsb,CLb], 3 [CLb], 4 median, 5 band, 6 calculator)"""
-    items = list(res) if isinstance(res, tuple) else [res]
-    codes = []
-    for i, it in enumerate(items):
-        if hasattr(it, "teststatistic"):
-            codes.append(6)
-        elif isinstance(it, (list, tuple)):
-            codes.append({2: 2, 1: 3, 5: 5}.get(len(it), 0))
-        else:
-            codes.append(1 if i == 0 else 4)
-    return codes, items
+from htcodes import classify  # noqa: E402
 
 
 def tofloat(pyhf, x):
